@@ -528,9 +528,11 @@
               (string b))
     "funcdef-nest" (fn [n] (string "\xD7\x00" (rep "\xCD\x00\x20\x00\x00\x00\x00\x00\x00\x00\x00\x01" n)))
     "funcdef-valid" (fn [n] (string "\xD7\x00" (rep img-def-open n) img-def-leaf))
-    "trunc-arr" (fn [n] (rep "\xD1\x01" n))})
+    "trunc-arr" (fn [n] (rep "\xD1\x01" n))
+    # abstract values that hold Janet values: a channel whose only item is a channel ... (n levels), a leaf item 1
+    "chan-nest" (fn [n] (string "\xD9\xCF\x0Ccore/channel\0\0\x01\x01" (rep "\xD9\xDA\0\0\0\x01\x01" n) "\x01"))})
 (def image-shape-names ["arr" "tup" "tab-val" "tab-key" "st-val" "tab-proto" "st-proto" "mixed" "funcdef-nest"
-                        "funcdef-valid" "trunc-arr"])
+                        "funcdef-valid" "trunc-arr" "chan-nest"])
 (def image-consumers
   @{"unmarshal" (fn [img] (type (unmarshal img)))
     "unmarshal-gc" (fn [img] (def x (unmarshal img)) (gccollect) (type x))
